@@ -53,11 +53,13 @@ func vrBlob(letter string) []byte {
 		return append(pat(500, 5), make([]byte, 2000)...)
 	case "M":
 		return append(append(pat(700, 6), make([]byte, 1500)...), pat(300, 7)...)
+	case "q":
+		return []byte{0x71}
 	}
 	panic("unknown blob letter " + letter)
 }
 
-var vrLetters = []string{"A", "B", "C", "Z", "z", "P", "S", "M"}
+var vrLetters = []string{"A", "B", "C", "Z", "z", "P", "S", "M", "q"}
 
 // vrRepo is a real in-memory repository holding the blob alphabet, spread over several packs.
 type vrRepo struct {
@@ -69,7 +71,7 @@ type vrRepo struct {
 func vrNewRepo(t testing.TB) *vrRepo {
 	r := &vrRepo{repo: repository.TestRepository(t), ids: map[string]restic.ID{}, blobs: map[string][]byte{}}
 	// three upload sessions => at least three packs
-	for _, grp := range [][]string{{"A", "Z", "P"}, {"B", "z", "S"}, {"C", "M"}} {
+	for _, grp := range [][]string{{"A", "Z", "P"}, {"B", "z", "S"}, {"C", "M", "q"}} {
 		err := r.repo.WithBlobUploader(context.Background(), func(ctx context.Context, up restic.BlobSaverWithAsync) error {
 			for _, l := range grp {
 				b := vrBlob(l)
@@ -298,3 +300,9 @@ func vrModeOf(s string) OverwriteBehavior {
 	panic("mode " + s)
 }
 
+
+func vrMust(err error) {
+	if err != nil {
+		panic(err)
+	}
+}
